@@ -82,6 +82,9 @@ struct V1World {
       bool must = log.surely_set(wait_span[i].b, wait_span[i].e) || log.set_began_after(wait_span[i].e);
       if (must && done_count[i] == 0)
         rt::fail("stranded waiter: wait%d started before a set() (or while set) and was never resumed", i);
+      // a manual-reset event that is set has no queue: whoever started must have been resumed
+      if (evt.ready() && done_count[i] == 0)
+        rt::fail("stranded waiter: the event is set at quiescence but wait%d was never resumed", i);
     }
   }
 };
@@ -125,7 +128,9 @@ struct ARWorld {
   bool last_done[MAXC] = {false, false};
   long next_begin[MAXC] = {-1, -1};
   int values = 0, sets_begun = 0;
-  long first_done_returned = -1;          // a set_done()/request_stop() call has returned at this time
+  long first_done_returned = -1;          // a set_done() call has returned at this time
+  long done_established = -1;             // from this time on the event is DONE (or becomes DONE before any wait)
+  std::vector<long> set_begins;
   bool done_begun = false;                // a set_done()/request_stop() call has begun
 
   ARWorld(int nc, bool startReady = false) : evt(startReady), start_ready(startReady), ncons(nc) {
@@ -151,6 +156,13 @@ struct ARWorld {
         rt::fail("%d next() calls obtained a value from %d set() calls: a set() was handed to two next()", values, sets_begun + (start_ready ? 1 : 0));
       if (first_done_returned >= 0 && next_begin[k] > first_done_returned)
         rt::fail("next%d started after set_done()/cancellation returned and still obtained a value", k);
+      // DONE is permanent: values can only come from set() calls that began before the event became DONE
+      if (done_established >= 0) {
+        int sources = start_ready ? 1 : 0;
+        for (long b : set_begins) if (b < done_established) ++sources;
+        if (values > sources)
+          rt::fail("next%d obtained a value from a set() that began after the event had become DONE", k);
+      }
     } else {
       if (ncons == 1 && !done_begun) rt::fail("next%d completed with done although the event never became DONE", k);
     }
@@ -159,7 +171,7 @@ struct ARWorld {
     rt::point("in-completion");
   }
   void set() {
-    rt::obs("set.begin"); ++sets_begun; clk.tick();
+    rt::obs("set.begin"); ++sets_begun; set_begins.push_back(clk.tick());
     evt.set();
     rt::obs("set.end");
   }
@@ -167,11 +179,16 @@ struct ARWorld {
     rt::obs("setdone.begin"); done_begun = true; clk.tick();
     evt.set_done();
     if (first_done_returned < 0) first_done_returned = clk.tick();
+    if (done_established < 0) done_established = first_done_returned;
     rt::obs("setdone.end");
   }
   void stop(int k) {
     rt::obs("stop%d.begin", k); done_begun = true; clk.tick();
+    // a next() of this consumer is in flight: its stop callback is registered (then request_stop runs
+    // set_done before returning) or will be (then set_done runs inline at registration, before the wait)
+    bool in_flight = next_begin[k] >= 0 && completions[k] == 0;
     src[k].request_stop();
+    if (in_flight && done_established < 0) done_established = clk.tick();
     // (a stop request turns the event DONE only if the callback was registered at that moment or
     //  gets registered later; it does not by itself bound later next() calls of other consumers)
     rt::obs("stop%d.end", k);
@@ -293,6 +310,14 @@ SCENARIO(v1_set_reset) {
 
 SCENARIO(v1_start_set) {
   V1World w(true);
+  int t1 = rt::spawn([&] { w.wait(0); });
+  int t2 = rt::spawn([&] { w.reset(); w.set(); });
+  rt::join(t1); rt::join(t2);
+  w.finish(1);
+}
+
+SCENARIO(v1_reset_noop) {   // reset() while a waiter is queued must not drop it
+  V1World w;
   int t1 = rt::spawn([&] { w.wait(0); });
   int t2 = rt::spawn([&] { w.reset(); w.set(); });
   rt::join(t1); rt::join(t2);
